@@ -166,6 +166,12 @@ def gen_program(rng, big=False):
                 for p in c["params"]:
                     if rng.random() < 0.12:
                         p[1] = ""
+    if rng.random() < 0.2:
+        # process names at the comm buffer's edge: 15, 16, 17, 20 bytes (toProcessName keeps the first 16)
+        base = rng.choice(["abcdefghijklmnopqrstuvwx", "systemd-resolved-helperd", "NetworkManager-dispatcher"])
+        vals = [["", base[:L]] for L in rng.sample([15, 16, 17, 20], rng.choice([1, 2, 3]))]
+        prog["rules"].insert(rng.randint(0, len(prog["rules"])),
+                             {"conds": [{"kind": "pname", "neg": rng.random() < 0.25, "params": vals}], "out": c01.gen_outbound(rng, prog["groups"])})
     if rng.random() < 0.3:
         prog = share_prefix_sets(rng, prog)
     return prog
@@ -224,8 +230,19 @@ def gen_wide_program(rng):
 def gen_packets(rng, prog, n):
     pkts = c01.gen_packets(rng, prog, n)
     has_pname = any(c["kind"] == "pname" for r in prog["rules"] for c in r["conds"])
+    names = []
+    for r_ in prog["rules"]:
+        for c_ in r_["conds"]:
+            if c_["kind"] == "pname":
+                for _, v in c_["params"]:
+                    b = v.encode()
+                    if b:
+                        names += [c01.pname16(v), b[:15] + b"\0" * (16 - len(b[:15])), b[:8] + b"\0" * (16 - len(b[:8])),
+                                  b[:14] + b"\0" * (16 - len(b[:14]))]
     for p in pkts:
         p["via"] = "match"
+        if names and rng.random() < 0.5:
+            p["pname"] = rng.choice(names).hex()   # the rule's name as a comm buffer: full 16 bytes, 15 bytes + NUL, shorter
         is4 = (p["dst128"] >> 32) == 0xffff
         p["ipver"] = 1 if is4 else 2
         p["wan"] = rng.random() < (0.6 if has_pname else 0.4)
